@@ -1,4 +1,5 @@
 import Sourmash.Lemmas.Select
+import Sourmash.Lemmas.Lookup
 /-! Property C11 — selection keeps exactly the sketches that satisfy the request.
 Property theorems only; helper lemmas live in `Sourmash/Lemmas/Select.lean`.
 `satisfies` (Spec/Select.lean) is the conjunction of the five optional criteria; every theorem is
@@ -228,6 +229,50 @@ theorem agree_needs_multiple_of_3 :
                         container := .vec, seed := 42, mins := [], abunds := [] }
     let sel : Selection := { ksize := some 6 }
     rowValid sel (mkRecord (fun _ => []) [] [] [] s) = true ∧ keep sel s = false := by
+  decide
+
+/-! ## T-collection -/
+
+/-- "Selecting from a … collection …": for a collection built by `Collection::from_sigs`, every row
+    that survives `Collection::select sel` comes from a sketch `s` that satisfies the request, and
+    loading it (`sig_from_record`, then `select sel` as the callers do) delivers exactly that one
+    sketch, cut at the requested ceiling.  Hypotheses: the look-up can tell the sketches of a
+    signature apart (no two agree on ksize, molecule type and abundance — see C12 `lookup_collision`
+    for what happens otherwise), sketches are well-formed, the requested scaled is a `u32`. -/
+theorem collection_load (md5of : Sketch → Bytes) (sel : Selection) (sigs : List Sig) (c : Collection)
+    (hc : Collection.fromSigs md5of sigs = some c)
+    (hwf : ∀ sg ∈ sigs, ∀ s ∈ sg.sketches, s.wf)
+    (hd : ∀ sg ∈ sigs, sg.sketches.Pairwise (fun s t => lookupKey s ≠ lookupKey t))
+    (hsc : ∀ sc, sel.scaled = some sc → sc < 4294967296)
+    (r : Record) (hr : r ∈ (c.select sel).manifest) :
+    ∃ sg ∈ sigs, ∃ s ∈ sg.sketches, satisfies sel s.described = true ∧
+      (c.select sel).sigFromRecord r = some (.ok { sg with sketches := [s] }) ∧
+      sigStoreSelect sel { sg with sketches := [s] } = .ok { sg with sketches := [deliver sel s] } := by
+  obtain ⟨hmem, hsat⟩ := (manifest_mem sel c.manifest r).1 hr
+  obtain ⟨i, hi, rfl⟩ := List.mem_iff_getElem.1 hmem
+  obtain ⟨sg, hsg, s, hs, hload, nm, hrec⟩ := lookup_ok md5of sigs c hc
+    (fun sg hsg s hs => (hwf sg hsg s hs).1) hd i hi
+  have hsat' : satisfies sel s.described = true := by
+    rw [hrec, mkRecord_described] at hsat; exact hsat
+  refine ⟨sg, hsg, s, hs, hsat', ?_, ?_⟩
+  · have : c.sigForDataset i = c.sigFromRecord c.manifest[i] := by
+      simp [Collection.sigForDataset, List.getElem?_eq_getElem hi]
+    rw [← hload, this]
+    rfl
+  · have h1 := sig_exact sel { sg with sketches := [s] }
+      (by intro t ht; simp at ht; subst ht; exact hwf sg hsg t hs) hsc
+    simp only [sigStoreSelect, h1, selectSpec, List.filter_cons, hsat', if_true, List.filter_nil,
+      List.map_cons, List.map_nil]
+/-- non-vacuity: a signature with a DNA and a protein scaled-2 sketch; requesting DNA at scaled 4
+    leaves one row, and loading it delivers the DNA sketch cut at the ceiling of 4 -/
+example :
+    (Collection.fromSigs (fun _ => [])
+      [⟨some [120], none, [⟨21, .dna, 0, maxHashForScaled 2, false, .vec, 1000, [1, 2^63], []⟩,
+                            ⟨21, .protein, 0, maxHashForScaled 2, false, .vec, 1001, [1], []⟩]⟩]).map
+      (fun c => (c.select { scaled := some 4, moltype := some .dna }).manifest.map (fun r =>
+        (c.sigFromRecord r).map (fun x => x.toOption.map (fun g =>
+          (sigStoreSelect { scaled := some 4, moltype := some .dna } g).toOption.map
+            (fun g' => g'.sketches.map (·.mins)))))) = some [some (some (some [[1]]))] := by
   decide
 
 end Sourmash.C11
